@@ -75,6 +75,20 @@ NormD(sh, d) ==
                                    ELSE <<NormD(sh.fs[i], d.f[i][1])>>]]
       [] OTHER -> d
 
+(* deep normal form: additionally drops dictionary / list entries whose (collection) child delta is empty -
+   used to recognise two deltas that differ only by ticks that changed nothing *)
+RECURSIVE DeepNorm(_, _)
+DeepNorm(sh, d) ==
+    CASE sh.k \in {"TSD", "TSL"} ->
+            LET f == [x \in DOMAIN d.m |-> DeepNorm(sh.el, d.m[x])]
+                keep == {x \in DOMAIN f : ~(IsColl(sh.el) /\ EmptyD(sh.el, f[x]))}
+            IN  IF sh.k = "TSD" THEN [r |-> d.r, m |-> Restrict(f, keep)] ELSE [m |-> Restrict(f, keep)]
+      [] sh.k = "TSB" -> [f |-> [i \in 1..Len(sh.fs) |->
+                                   IF d.f[i] = <<>> THEN <<>>
+                                   ELSE LET c == DeepNorm(sh.fs[i], d.f[i][1])
+                                        IN  IF IsColl(sh.fs[i]) /\ EmptyD(sh.fs[i], c) THEN <<>> ELSE <<c>>]]
+      [] OTHER -> d
+
 (***************************************************************************)
 (* Apply(v, d): the value after a tick with delta d                        *)
 (***************************************************************************)
